@@ -137,6 +137,42 @@ class PList:
         return f'PList{self.items!r}'
 
 
+class PGenList(PList):
+    """a list of UNKNOWN length n >= 0 (no bound) whose elements all satisfy the typing stated when it was created.
+    It is never enumerated.  The engine knows one GENERIC element `gen` -- about which only facts that hold for EVERY
+    element are ever assumed (and only under n > 0) -- and the WITNESS elements that the loop rule / `branch_all` introduce
+    ("some element makes the loop body raise").  `forall x in L: P(x)` is then the formula  (n > 0 -> P(gen)) and P(w) for
+    every witness w:  if it is entailed, P holds of an arbitrary element; if its negation is entailed, an actual element
+    (gen ranges over all of them, the witnesses are elements) violates P.  Every other operation on such a list is outside
+    the supported subset (`.items` raises Unsupported => UNDECIDED, never a verdict)."""
+
+    def __init__(self, n, gen, new_elem, core=None):
+        self.n = n                      # Sym int, n >= 0 assumed
+        self.gen = gen                  # the generic element
+        self.new_elem = new_elem        # () -> fresh element value satisfying the element typing
+        self.core = core if core is not None else dict(wit=[], univ=[])   # shared by snapshots (the list is immutable)
+        self.version = 0
+
+    @property
+    def wit(self):
+        return self.core['wit']
+
+    @property
+    def univ(self):
+        return self.core['univ']
+
+    @property
+    def items(self):
+        raise Unsupported('operation that enumerates a list of unknown length (outside the loop rule)')
+
+    @items.setter
+    def items(self, v):
+        raise Unsupported('write to a list of unknown length')
+
+    def __repr__(self):
+        return f'PGenList<n={self.n!r} gen={self.gen!r} wit={self.wit!r}>'
+
+
 class PSet:
     """set with concrete membership structure: list of distinct concrete hashables or heap identities"""
 
